@@ -215,7 +215,7 @@ func cmdCheck(args []string) int {
 		var chosen []PathResult
 		for _, c := range candidates {
 			key := c.Harness + "|" + c.Msg
-			if seenMsg[key] >= 3 || len(chosen) >= 40 {
+			if seenMsg[key] >= 3 || len(chosen) >= 40 || (spec.Race && len(chosen) >= 8) {
 				continue
 			}
 			seenMsg[key]++
@@ -229,7 +229,21 @@ func cmdCheck(args []string) int {
 			var outs []NativeOutcome
 			var err error
 			// write-monitor hits are sequential facts about stores; confirm natively with -race when asked
-			outs, err = nr.Run(pkg, recs, spec.Race, 20)
+			if spec.Race {
+				// the race detector reports each racing pair of locations once per process:
+				// one process per witness
+				for _, rec := range recs {
+					o1, err1 := nr.Run(pkg, []ReplayRecord{rec}, true, 20)
+					if err1 != nil {
+						err = err1
+						break
+					}
+					o1[0].I = len(outs)
+					outs = append(outs, o1[0])
+				}
+			} else {
+				outs, err = nr.Run(pkg, recs, false, 20)
+			}
 			if err != nil {
 				fmt.Fprintln(os.Stderr, "native replay:", err)
 				return 2
